@@ -89,6 +89,13 @@ CHECKS = {
             "oracle after one settle step: both sides closed, disconnect hooks exactly once, tables released, second close harmless, every request ended with its value / EOFError / own time-out, no thread left blocked.",
             "lenient reading of 'becomes closed' (after one further serve(0)); one fault per run; SimOS socket semantics (conformance-tested against the kernel in selftest)",
             "E1+E4", "DESIGN.md#c11"),
+    "C06": ("exploration",
+            "exhaustive enumeration of the attribute-policy decision space (128 switch settings x prefixes x name classes x object shapes x operations) as real requests from a raw peer, judged by an independent reference policy; explicit enumeration of connection open/close histories for isolation",
+            "Every combination of the seven switches, three prefixes, eight text and six non-text names, four object shapes and get/set/del/call plus the comparison, context-exit and old-slicing routes is sent to a real Connection; "
+            "which attribute was touched is read from sentinels and __dict__ deltas. Objects with own hooks, restricted() views and a Service are run under all 128 settings. All open/close histories of <= 3 connections "
+            "(default, classic, custom) probe every live connection after every step and compare DEFAULT_CONFIG with a snapshot.",
+            "reference policy written from the statement; both targets accepted where name and twin both qualify; bytes names may be refused or decoded",
+            "E5", "DESIGN.md#c06"),
 }
 
 NOT_APPLICABLE = {}
